@@ -1123,6 +1123,48 @@ func c07c(c *Ctx) {
 		}
 	}
 	c.Check(okInt, "unnamed/int-is-max-line-length", c.W.Pos(call.Pos()), "an unnamed integer is the maximum line length", "no unnamed integer parameter reaches FormatText's maxWidth")
+	// the number that is parsed is the number that was written: every ParseInt of the format()
+	// parser reads the literal of the token at hand (the INT that was just accepted), not of a
+	// token further on
+	nPI := 0
+	for _, m := range c.unitOf(fn) {
+		for _, ci := range callsIn(m.fn) {
+			if calleeName(ci) != "strconv.ParseInt" || len(ci.Common().Args) == 0 {
+				continue
+			}
+			nPI++
+			// the operand is a load of <receiver>.curToken.Literal at the place of the call
+			isCurLiteral := func(v ssa.Value) bool {
+				ld, isLd := v.(*ssa.UnOp)
+				if !isLd || ld.Op != token.MUL {
+					return false
+				}
+				tokAddr, _, f, okF := fieldAddrOf(ld.X)
+				if !okF || f != "Literal" {
+					return false
+				}
+				_, t, f2, okT := fieldAddrOf(tokAddr)
+				return okT && f2 == "curToken" && typeIs(t, "parser", "Parser")
+			}
+			t := pretty(c.term(m.fn, ci.Common().Args[0]))
+			ok := isCurLiteral(ci.Common().Args[0])
+			if par, isPar := ci.Common().Args[0].(*ssa.Parameter); isPar {
+				// a helper that is handed the literal: judged at its callers
+				ok = true
+				idx := paramIndex(m.fn, par)
+				for _, cs := range c.W.callsTo(m.fn) {
+					if isTestFunc(c.W, cs.Parent()) || idx < 0 || idx >= len(cs.Common().Args) {
+						continue
+					}
+					if !isCurLiteral(cs.Common().Args[idx]) {
+						ok, t = false, pretty(c.term(cs.Parent(), cs.Common().Args[idx]))
+					}
+				}
+			}
+			c.Check(ok, fmt.Sprintf("number-parsed-is-the-number-written/%s@%d", m.fn.Name(), c.T(m.fn).callOrd[ci]), c.W.Pos(ci.Pos()), "ParseInt reads the literal of the current token", "the format() parser converts "+t+" to a number, which is not a read of the current token's literal (the token it has just accepted): the value written for the parameter is ignored")
+		}
+	}
+	c.Check(nPI >= 1, "number-parsed/sites", c.W.FuncPos(fn), fmt.Sprintf("%d conversions of parameter values", nPI), fmt.Sprintf("only %d ParseInt calls found in the format() parser", nPI))
 }
 
 // c07d: (i) FormatText and everything it calls write no heap state (Effects): a width or a
